@@ -65,4 +65,103 @@ theorem CMain_usage {argv : List Str} (h : parseArgv argv {} = none) (sfile : St
   unfold cminxMain mainSettings
   rw [h]
 
+/-! ## the settings the walk reads are the values in effect -/
+
+theorem mapM_except_fst {α β ε : Type} (f : α → Except ε β) (g : α → γ) (g' : β → γ) (hg : ∀ a b, f a = .ok b → g' b = g a) :
+    ∀ (l : List α) (out : List β), l.mapM f = .ok out → out.map g' = l.map g := by
+  intro l
+  induction l with
+  | nil => intro out h; simp [List.mapM_nil, pure, Except.pure] at h; subst h; rfl
+  | cons x xs ih =>
+    intro out h
+    simp only [List.mapM_cons] at h
+    cases hx : f x with
+    | error e => simp [hx, bind, Except.bind] at h
+    | ok b =>
+      cases hxs : xs.mapM f with
+      | error e => simp [hx, hxs, bind, Except.bind] at h
+      | ok bs =>
+        simp [hx, hxs, bind, Except.bind, pure, Except.pure] at h
+        subst h
+        simp [hg x b hx, ih bs hxs]
+
+/-- a successful resolution lists the options of the table, in the table's order -/
+theorem C16_resolveAll_keys (sources : List Source) (vals : Vals) (h : resolveAll sources = .ok vals) :
+    vals.map (·.1) = optionTable.map (·.1) := by
+  unfold resolveAll at h
+  refine mapM_except_fst _ (·.1) (·.1) ?_ optionTable vals h
+  intro a b hab
+  obtain ⟨k, ty⟩ := a
+  simp only at hab
+  cases hr : resolveOpt sources k ty with
+  | error e => simp [hr, bind, Except.bind] at hab
+  | ok v => simp [hr, bind, Except.bind, pure, Except.pure] at hab; subst hab; rfl
+
+theorem lookup_of_mem_nodup {β : Type} : ∀ (l : List (Str × β)) (k : Str) (v : β), (l.map (·.1)).Nodup → (k, v) ∈ l → l.lookup k = some v := by
+  intro l
+  induction l with
+  | nil => intro k v _ h; cases h
+  | cons x xs ih =>
+    intro k v hn h
+    obtain ⟨k', v'⟩ := x
+    simp only [List.map_cons, List.nodup_cons] at hn
+    rcases List.mem_cons.mp h with heq | hmem
+    · cases heq; simp [List.lookup]
+    · have hne : k ≠ k' := by
+        intro e; subst e
+        exact hn.1 (List.mem_map.mpr ⟨(k, v), hmem, rfl⟩)
+      have : (k == k') = false := by simpa using hne
+      simp [List.lookup, this, ih k v hn.2 hmem]
+
+/-- what the lower layers read from the settings object is the value in effect -/
+theorem C16_vals_get (sources : List Source) (vals : Vals) (h : resolveAll sources = .ok vals) (k : String) (ty : CType)
+    (hk : (lit k, ty) ∈ optionTable) : Vals.get vals k = effective sources (lit k) := by
+  have hmem := C16_resolveAll_lookup sources vals h (lit k) ty hk
+  have hnd : (vals.map (·.1)).Nodup := by rw [C16_resolveAll_keys sources vals h]; decide
+  unfold Vals.get
+  rw [lookup_of_mem_nodup vals (lit k) _ hnd hmem]
+  cases effective sources (lit k) <;> rfl
+
+/-- `-r` on the command line makes the walk recursive, whatever the files say -/
+theorem CMain_recursive_from_argv (argv : List Str) (sfile : Str → Source) (user defaults : Source)
+    (files : List Str) (vals : Vals) (filters : List CVal)
+    (h : mainSettings argv sfile user defaults = some (.ok (files, vals, filters)))
+    (p : Parsed) (hp : parseArgv argv {} = some p) (hr : p.recursive = true) (agg : Cfg) :
+    (walkCfgOfSettings vals agg).recursive = true := by
+  unfold mainSettings at h
+  rw [hp] at h
+  simp only [Option.some.injEq] at h
+  split at h
+  · cases h
+  · rename_i vals' filters' hres
+    simp only [Except.ok.injEq, Prod.mk.injEq] at h
+    obtain ⟨_, hvals, _⟩ := h
+    subst hvals
+    obtain ⟨_, _, hall⟩ := C16_filters_main _ _ _ hres
+    have hg := C16_vals_get _ _ hall "input.recursive" .bool (by decide)
+    rw [C16_cli_recursive_wins p hr] at hg
+    simp [walkCfgOfSettings, Vals.bool, hg]
+
+/-- … and without `-r` the walk is recursive iff the highest-priority *file* that sets `input.recursive` says so -/
+theorem CMain_recursive_from_files (argv : List Str) (sfile : Str → Source) (user defaults : Source)
+    (files : List Str) (vals : Vals) (filters : List CVal)
+    (h : mainSettings argv sfile user defaults = some (.ok (files, vals, filters)))
+    (p : Parsed) (hp : parseArgv argv {} = some p) (hr : p.recursive = false) (agg : Cfg) (b : Bool)
+    (he : effective [(match p.settings with | some f => sfile f | none => []), user, defaults] (lit "input.recursive") = some (.bool b)) :
+    (walkCfgOfSettings vals agg).recursive = b := by
+  unfold mainSettings at h
+  rw [hp] at h
+  simp only [Option.some.injEq] at h
+  split at h
+  · cases h
+  · rename_i vals' filters' hres
+    simp only [Except.ok.injEq, Prod.mk.injEq] at h
+    obtain ⟨_, hvals, _⟩ := h
+    subst hvals
+    obtain ⟨_, _, hall⟩ := C16_filters_main _ _ _ hres
+    have hg := C16_vals_get _ _ hall "input.recursive" .bool (by decide)
+    rw [C16_cli_recursive_absent p hr] at hg
+    have hg' : Vals.get vals' "input.recursive" = some (.bool b) := hg.trans he
+    simp [walkCfgOfSettings, Vals.bool, hg']
+
 end Cminx
